@@ -53,16 +53,18 @@ func boolVal(b bool) *Val  { return &Val{C: constant.MakeBool(b)} }
 func strVal(s string) *Val { return &Val{C: constant.MakeString(s)} }
 
 type Env struct {
-	P     *Prog
-	Pkg   *packages.Package
-	Vars  map[types.Object]*Val
-	Hook  func(env *Env, e ast.Expr) (*Val, bool) // consulted first for every expression
-	Body  ast.Node                                // when set, locals with a single definition in Body are evaluated through it
+	P    *Prog
+	Pkg  *packages.Package
+	Vars map[types.Object]*Val
+	Hook func(env *Env, e ast.Expr) (*Val, bool) // consulted first for every expression
+	Body ast.Node                                // when set, locals with a single definition in Body are evaluated through it
+	// Multi gives the results of a multi-value call on the right of "a, b := f(x)" (nil, false = unsupported)
+	Multi func(env *Env, c *ast.CallExpr) ([]*Val, bool)
 	depth int
 }
 
 func (env *Env) child(pkg *packages.Package) *Env {
-	return &Env{P: env.P, Pkg: pkg, Vars: map[types.Object]*Val{}, Hook: env.Hook, depth: env.depth + 1}
+	return &Env{P: env.P, Pkg: pkg, Vars: map[types.Object]*Val{}, Hook: env.Hook, Multi: env.Multi, depth: env.depth + 1}
 }
 
 type evalErr struct{ msg string }
@@ -311,6 +313,16 @@ func (env *Env) execBlock(list []ast.Stmt) ([]*Val, bool) {
 			}
 		case *ast.AssignStmt:
 			if len(x.Lhs) != len(x.Rhs) {
+				if c, ok := ast.Unparen(x.Rhs[0]).(*ast.CallExpr); ok && len(x.Rhs) == 1 && env.Multi != nil {
+					if vals, ok := env.Multi(env, c); ok && len(vals) == len(x.Lhs) {
+						for i, l := range x.Lhs {
+							if o := objOf(info, l); o != nil {
+								env.Vars[o] = vals[i]
+							}
+						}
+						continue
+					}
+				}
 				env.fail(x, "multi-value assignment")
 			}
 			for i, l := range x.Lhs {
